@@ -116,7 +116,10 @@ func body(c *mc.Ctx) {
 		cfg.ReadSize = 1
 		cfg.Operators = 2
 		cfg.Batching = batching.EventBatcherParams{MaxSize: 2, MaxDelay: 10 * time.Millisecond}
-		cfg.Barriers, cfg.BarrierAfterReads = []uint64{1}, []int{1 + c.Choose(2)}
+		cfg.Barriers, cfg.BarrierAfterReads = []uint64{1}, []int{2}
+		if p.thorough {
+			cfg.BarrierAfterReads = []int{1 + c.Choose(2)}
+		}
 	} else {
 		sc = scenarios[c.Choose(3)]
 		cfg.ReadSize = 1 + c.Choose(2)
